@@ -700,3 +700,36 @@ func TestMain(m *testing.M) {
 	_ = os.RemoveAll(dir)
 	os.Exit(code)
 }
+
+// FuzzLoaders: native coverage-guided fuzzing of every loader (thorough tier). The oracle is the one of the
+// robustness part (value or error, never a panic / fatal error / hang). When VERIF_EXPORT is set the input is
+// written there as a RobustCase first, so that the driver can turn a crasher into an ordinary replay file.
+func FuzzLoaders(f *testing.F) {
+	kinds := []string{"BUILD.json", "BUILD.yaml", "BUILD.star", "Makefile", "x.grog.sh"}
+	pkg := Package{Targets: []Target{{Name: "t0", Command: "true", Inputs: []string{"*.txt"}, Outputs: []string{"o", "dir::d"}, Tags: []string{"x"}, Fingerprint: map[string]string{"k": "v"}, Timeout: "5s",
+		Checks: []Check{{Command: "true", Expected: "ok"}}}, {Name: "t1", Command: "make goal1", Dependencies: []string{":t0"}}}, Aliases: []Alias{{Name: "al", Actual: ":t0"}}}
+	seeds := []string{renderJSON(pkg), renderYAML(pkg), renderStarlark(pkg), renderMakefile(pkg), "#!/bin/sh\n# @grog\n# name: s\n# inputs:\n#   - a.txt\necho hi\n"}
+	for i, s := range seeds {
+		f.Add(i, []byte(s))
+	}
+	for i := range kinds {
+		for _, c := range spliceConstants {
+			if len(c) < 200 {
+				f.Add(i, []byte(c))
+			}
+		}
+	}
+	f.Fuzz(func(t *testing.T, kind int, content []byte) {
+		if kind < 0 {
+			kind = -kind
+		}
+		c := RobustCase{File: kinds[kind%len(kinds)], Content: string(content)}
+		if p := os.Getenv("VERIF_EXPORT"); p != "" {
+			b, _ := json.Marshal(map[string]any{"part": "robust", "property": "C16", "signature": "fuzz-crasher", "case": c})
+			_ = os.WriteFile(p, b, 0o644)
+		}
+		if _, err := runRobust(c); err != nil {
+			t.Fatalf("%v", err)
+		}
+	})
+}
